@@ -3,8 +3,9 @@
    generic reader/writer; the decisions and arithmetic of the readers are imported from the kernels translated from
    core/hash.h, tensor/stream.h, tensor/dims.h, configurable.cpp, parameter.cpp on every run). *)
 From Coq Require Import List ZArith NArith Bool.
-From LNGen Require Import Src_stream.
-From LN Require Import C15_Defs C15_Proofs C15_Statements.
+From Coq Require String.
+From LNGen Require Import Src_stream Src_c15_fields.
+From LN Require Import C15_Defs C15_Proofs C15_Statements C15_Dest_Defs C15_Dest C15_Fields_Defs C15_Fields.
 Import ListNotations.
 Local Open Scope N_scope.
 
@@ -128,3 +129,158 @@ Example C15_nonvacuous_formats :
   wt (config_fmt (0, 0, 1)%Z) (VP (VP (VN 0) (VP (VN 0) (VN 1)))
                                   (mk_vector [VP (VP (VN 5) (mk_string [110])) (mk_string [118; 97])])).
 Proof. exact s_nonvacuous_formats. Qed.
+
+(* ==== extension: STATEFUL readers (C15_Dest_Defs / C15_Dest) ===================================================== *)
+(* nano::read(stream, destination) mutates an existing object: [rd p f d bs] is the state of the destination d after the
+   call and the rest of the stream if it is still good; [read_into] is its view for a caller that checks the stream;
+   [erase f] is the pure format of C15_Defs. [faithful p]: the reader returns early exactly when the size field could not be
+   read, and resizes the tensor unconditionally -- the decisions of the current source (translated on every run): *)
+Theorem C15_dest_source_policy : forall junk,
+  (forall failed n, p_str_exit (src_policy junk) failed n = failed) /\
+  (forall failed n, p_vec_exit (src_policy junk) failed n = failed) /\
+  (forall a b, p_resize_when (src_policy junk) a b = true).
+Proof. exact src_policy_faithful. Qed.
+Print Assumptions C15_dest_source_policy.
+
+(* (1) for EVERY format, EVERY previous state of the destination and EVERY stream: the stateful reader succeeds exactly when
+   the pure decoder does, leaves the same rest, and the destination then IS the decoded value (no stale state survives a
+   successful read); in particular the outcome is the same for any two destinations *)
+Theorem C15_dest_independent : forall p,
+  (forall failed n, p_str_exit p failed n = failed) /\ (forall failed n, p_vec_exit p failed n = failed) /\
+  (forall a b, p_resize_when p a b = true) ->
+  forall f d bs,
+    read_into p f d bs = dec (erase f) bs /\
+    (forall d' rest, read_into p f d bs = Some (d', rest) <-> dec (erase f) bs = Some (d', rest)) /\
+    (forall d2, read_into p f d2 bs = read_into p f d bs).
+Proof. exact p_dest_independent. Qed.
+Print Assumptions C15_dest_independent.
+
+(* the readers of the library (tensor, string, parameter, configurable, feature, learner, linear, weak learners, factory
+   objects, gboost) written with their destination handling erase to the formats of C15_formats_sound, and with the
+   decisions of the current source each of them is destination independent *)
+Theorem C15_dest_formats : forall junk proto e wl ids s df f,
+  In (df, f) (dest_formats proto e wl ids s) ->
+  erase df = f /\ forall d bs, read_into (src_policy junk) df d bs = dec f bs.
+Proof. exact p_dest_formats. Qed.
+Print Assumptions C15_dest_formats.
+
+(* reading what was written into ANY used object makes it the written value *)
+Theorem C15_dest_roundtrip : forall p,
+  (forall failed n, p_str_exit p failed n = failed) /\ (forall failed n, p_vec_exit p failed n = failed) /\
+  (forall a b, p_resize_when p a b = true) ->
+  forall f v d rest, wt (erase f) v -> read_into p f d (enc (erase f) v ++ rest) = Some (v, rest).
+Proof. exact dest_roundtrip. Qed.
+Print Assumptions C15_dest_roundtrip.
+
+(* (2) the two seeded regressions as models: NOT destination independent.
+   C15/4 (`|| size == 0U` in the early exit of the string reader): the empty string read over "abc" reports success and
+   leaves "abc"; C15/5 (tensor.resize(dims) skipped when the element count is unchanged): a 3x2 tensor read into a 2x3
+   destination reports success and keeps the shape 2x3. The current source yields the decoded value on both. *)
+Theorem C15_dest_early_exit_refuted : forall junk,
+  exists f d bs v d',
+    dec (erase f) bs = Some (v, []) /\ read_into (early_exit_policy junk) f d bs = Some (d', []) /\ d' <> v /\
+    read_into (src_policy junk) f d bs = Some (v, []).
+Proof. exact early_exit_refuted. Qed.
+Print Assumptions C15_dest_early_exit_refuted.
+
+Theorem C15_dest_skip_resize_refuted : forall junk,
+  exists s d bs v d',
+    dec (tensor_fmt s) bs = Some (v, []) /\ read_into (skip_resize_policy junk) (D_tensor s) d bs = Some (d', []) /\
+    d' <> v /\ state_dims d' = state_dims d /\ state_elems d' = state_elems v /\
+    read_into (src_policy junk) (D_tensor s) d bs = Some (v, []).
+Proof. exact skip_resize_refuted. Qed.
+Print Assumptions C15_dest_skip_resize_refuted.
+
+(* (3) failure is reported but NOT atomic (what the code does; the property only demands that failure is reported):
+   a truncated stream leaves the destination half-written -- neither the old object nor the written one *)
+Theorem C15_dest_failure_not_atomic :
+  (forall junk, exists d bs suffix v d',
+      rd (src_policy junk) d_string d bs = (d', None) /\ read_into (src_policy junk) d_string d bs = None /\
+      dec string_fmt (bs ++ suffix) = Some (v, []) /\ d' <> d /\ d' <> v /\
+      d' = mk_string [120; 121; 99; 100]) /\
+  (exists s d bs suffix v d',
+      rd (src_policy aa_junk) (D_tensor s) d bs = (d', None) /\
+      dec (tensor_fmt s) (bs ++ suffix) = Some (v, []) /\ d' <> d /\ d' <> v /\
+      state_dims d' = state_dims v /\ state_elems d' = [7; 0xAA; 0xAA]).
+Proof. exact failure_not_atomic. Qed.
+Print Assumptions C15_dest_failure_not_atomic.
+
+(* non-vacuity: the hypotheses of (1) hold for the source policy; a real feature stream (captured from the harness) read
+   into a destination holding the real enum parameter / another feature gives the decoded feature *)
+Example C15_dest_nonvacuous :
+  ((forall failed n, p_str_exit (src_policy zero_junk) failed n = failed) /\
+   (forall failed n, p_vec_exit (src_policy zero_junk) failed n = failed) /\
+   (forall a b, p_resize_when (src_policy zero_junk) a b = true)) /\
+  wt (erase d_param) (VP (VP (VN 5) (mk_string [110])) (mk_string [118; 97])) /\
+  reuse_result (src_policy zero_junk) (d_feature [[115; 99; 108; 97; 115; 115]]) real_param_enum real_feature
+    = Some (real_feature, []) /\
+  reuse_result (src_policy zero_junk) d_param real_param_enum real_param_int = Some (real_param_int, []) /\
+  reuse_result (src_policy zero_junk) (D_tensor i16_1) real_tensor_i16 real_tensor_i16 = Some (real_tensor_i16, []).
+Proof. exact p_dest_nonvacuous. Qed.
+
+(* ==== extension (b): the field sequences of the formats come from the source ======================================= *)
+(* coq/generated/Src_c15_fields.v (tools/checks/c15_fields.py, regenerated on every run) lists for every write/read pair of
+   the serialized classes the `::nano::write/read(stream, X)` calls in source order with the wire type of X.
+   [src_fields u] = Some (write tokens, read tokens); [tokens sch] prints a schema of the model; [seq_fmt] interprets a
+   schema as a format term: the source sequences ARE the model's schemas, the model's format terms ARE the interpretations
+   of these schemas (same order, same widths), every writer emits exactly what its reader consumes (the parameter range
+   writers additionally emit the (type, name) header parameter_t::read has already consumed), nothing is unresolved *)
+Import String.
+Theorem C15_fields_as_assumed : forall (e : env) (wl : list (bytes * N)) (s : tspec),
+  (* what the source says *)
+  (src_fields "feature"%string = Some (tokens sch_feature, tokens sch_feature) /\
+   src_fields "configurable"%string = Some (tokens (sch_version ++ sch_config_rest), tokens (sch_version ++ sch_config_rest)) /\
+   src_fields "learner"%string = Some (tokens sch_learner, tokens sch_learner) /\
+   src_fields "linear"%string = Some (tokens sch_linear, tokens sch_linear) /\
+   src_fields "gboost"%string = Some (tokens sch_gboost, tokens sch_gboost) /\
+   src_fields "single"%string = Some (tokens sch_single, tokens sch_single) /\
+   src_fields "stump"%string = Some (tokens sch_stump, tokens sch_stump) /\
+   src_fields "hinge"%string = Some (tokens sch_hinge, tokens sch_hinge) /\
+   src_fields "table"%string = Some (tokens sch_table, tokens sch_table) /\
+   src_fields "dtree"%string = Some (tokens sch_dtree, tokens sch_dtree) /\
+   src_fields "dtree_node"%string = Some (tokens sch_node, tokens sch_node) /\
+   src_fields "tensor"%string = Some (tokens (sch_tensor_hdr 0) ++ ["payload"%string], tokens (sch_tensor_hdr 0) ++ ["payload"%string]) /\
+   src_fields "param_range"%string = Some (tokens (sch_param_hdr ++ sch_range), tokens sch_range) /\
+   src_fields "param_pair_range"%string = Some (tokens (sch_param_hdr ++ sch_prange), tokens sch_prange) /\
+   src_fields "param_header"%string = Some (tokens sch_param_hdr, tokens sch_param_hdr) /\
+   src_fields "param_none"%string = Some (ptokens "-1"%string [], ptokens "-1"%string []) /\
+   src_fields "param_enum"%string = Some (ptokens "0"%string sch_penum, ptokens "0"%string sch_penum) /\
+   src_fields "param_irange"%string = Some (rtokens "1"%string "range_t"%string, rtokens "1"%string "range_t"%string) /\
+   src_fields "param_frange"%string = Some (rtokens "2"%string "range_t"%string, rtokens "2"%string "range_t"%string) /\
+   src_fields "param_iprange"%string = Some (rtokens "3"%string "pair_range_t"%string, rtokens "3"%string "pair_range_t"%string) /\
+   src_fields "param_fprange"%string = Some (rtokens "4"%string "pair_range_t"%string, rtokens "4"%string "pair_range_t"%string) /\
+   src_fields "param_string"%string = Some (ptokens "5"%string sch_pstring, ptokens "5"%string sch_pstring)) /\
+  (* what the model's format terms are *)
+  ((exists p, feature_fmt (e_ftypes e) = F_filter (seq_fmt e wl sch_feature) p) /\
+   config_fmt (e_version e) =
+     F_pair (F_filter (seq_fmt e wl sch_version) (version_ok (e_version e))) (seq_fmt e wl sch_config_rest) /\
+   learner_fmt e = seq_fmt e wl sch_learner /\
+   (exists p, linear_fmt e = F_filter (seq_fmt e wl sch_linear) p) /\
+   gboost_fmt e wl = seq_fmt e wl sch_gboost /\
+   single_fmt e = seq_fmt e wl sch_single /\ stump_fmt e = seq_fmt e wl sch_stump /\ hinge_fmt e = seq_fmt e wl sch_hinge /\
+   table_fmt e = seq_fmt e wl sch_table /\ dtree_fmt e = seq_fmt e wl sch_dtree /\
+   dtree_node_fmt = seq_fmt e wl sch_node /\
+   hdr_fmt s = seq_fmt e wl (sch_tensor_hdr (t_rank s)) /\
+   (forall hd, param_type hd = 1%Z \/ param_type hd = 2%Z -> param_body hd = seq_fmt e wl sch_range) /\
+   (forall hd, param_type hd = 3%Z \/ param_type hd = 4%Z -> param_body hd = seq_fmt e wl sch_prange) /\
+   (exists g, param_fmt = F_dep (seq_fmt e wl sch_param_hdr) g) /\
+   (forall hd, param_type hd = (-1)%Z -> param_body hd = seq_fmt e wl []) /\
+   (forall hd, param_type hd = 0%Z -> param_body hd = seq_fmt e wl sch_penum) /\
+   (forall hd, param_type hd = 5%Z -> param_body hd = seq_fmt e wl sch_pstring) /\
+   (forall hd, (param_type hd < -1 \/ 5 < param_type hd)%Z -> param_body hd = F_fail)) /\
+  (* every writer emits what its reader consumes, nothing is unresolved *)
+  (forall u w r, In (u, (w, r)) src_c15_fields ->
+     (forall t, In t (w ++ r)%list -> String.prefix "?"%string t = false) /\
+     (if is_range_unit u then w = (tokens sch_param_hdr ++ r)%list else w = r)) /\
+  (* ... and names the same members in the same order *)
+  (forall u w r, In (u, (w, r)) src_c15_names -> names_agree (if is_range_unit u then skipn 2 w else w) r = true).
+Proof. exact fields_as_assumed. Qed.
+Print Assumptions C15_fields_as_assumed.
+
+Example C15_fields_nonvacuous :
+  List.length src_c15_fields = 22%nat /\ In ("gboost"%string, (tokens sch_gboost, tokens sch_gboost)) src_c15_fields /\
+  In ("gboost"%string, ([""%string; "m_bias"%string; "m_wlearners"%string; "m_prototypes"%string],
+                        [""%string; "m_bias"%string; "m_wlearners"%string; "m_prototypes"%string])) src_c15_names /\
+  names_agree [""%string; "m_bias"%string; "m_prototypes"%string; "m_wlearners"%string]
+              [""%string; "m_bias"%string; "m_wlearners"%string; "m_prototypes"%string] = false.
+Proof. exact fields_nonvacuous. Qed.
